@@ -14,7 +14,7 @@ RULE = ("exception codes 0..255 x {read, write, write-multi} x {udp-rtu, tcp} x 
         "(transport, keep-alive, command kind, code, j, delay, entry) tuples")
 ASSUMPTIONS = ["reason texts are the standard Modbus exception names (table copied from the specification into refcodec)",
                "virtual clock: 'at once' means zero virtual time between delivery of the exception frame and the return"]
-MUST = ["rejected_after_a_failed_request_on_the_same_object", "same_request_rejected_twice_in_a_row", "compound_call_write_rejected", "public_entry_es", "poll_blocks_rejected_in_turn", "family_level_rejection", "rejected_after_a_request_served_on_retransmission", "public_entry_dt", "named_setting_write", "two_tcp_objects_overlapping", "command_for_another_unit", "tcp_exception_with_wrong_mbap_length", "second_request_rejected", "rejected_after_lone_fragment", "rejected_udp", "rejected_tcp", "after_drops", "delayed_exception", "unknown_code", "public_entry"]
+MUST = ["capability_probe_other_reasons", "rejected_after_a_failed_request_on_the_same_object", "same_request_rejected_twice_in_a_row", "compound_call_write_rejected", "public_entry_es", "poll_blocks_rejected_in_turn", "family_level_rejection", "rejected_after_a_request_served_on_retransmission", "public_entry_dt", "named_setting_write", "two_tcp_objects_overlapping", "command_for_another_unit", "tcp_exception_with_wrong_mbap_length", "second_request_rejected", "rejected_after_lone_fragment", "rejected_udp", "rejected_tcp", "after_drops", "delayed_exception", "unknown_code", "public_entry"]
 EXHAUSTIVE = {"quick": True, "thorough": True}
 EPS = 1e-6
 
@@ -298,6 +298,52 @@ def family_level_part(part):
         part.see(f"family-level|{port}|{code}|{kw['tag']}|{block}")
 
 
+def capability_probe_part(part):
+    """ET.read_device_info() probes two optional setting blocks (eco-mode v2 at 47547, peak shaving at 47589); only the exact reason
+    'ILLEGAL DATA ADDRESS' means "this firmware lacks the block": a probe answered with any OTHER exception code (busy, device failure,
+    unknown code) must leave the object offering exactly what it offers when the probe is answered normally"""
+    from .. import env, models
+    g = env.goodwe()
+
+    def offered(port, exc):
+        sim = models.et_sim()
+        sim.regs[35019] = 22           # ARM firmware that knows both blocks
+        for k, v in exc.items():
+            sim.exc_map[k] = v
+        out = {}
+
+        async def flow(loop):
+            inv = g.ET("inv0", port, 0, 1, 0)
+            await inv.read_device_info()
+            out["modes"] = sorted(m.name for m in await inv.get_operation_modes(True))
+            out["settings"] = sorted(x.id_ for x in inv.settings())
+        run = engine.run_custom({("inv0", port): sim}, flow, vtime_cap=600, tx_cap=600)
+        return (run.stop or (repr(run.error) if run.error is not None else None)), out
+
+    for port in (8899, 502):
+        err0, base = offered(port, {})
+        if err0:
+            part.violate(f"C08/{'udp' if port == 8899 else 'tcp'}/not-rejected", f"capability probes: baseline run failed: {err0}", {"probe": True})
+            continue
+        for reg in (47547, 47589):
+            err2, lacking = offered(port, {(3, reg): 2})
+            for code in (6, 4, 1, 3, 200, 0):
+                err, got = offered(port, {(3, reg): code})
+                part.evaluations += 1
+                tr = "udp" if port == 8899 else "tcp"
+                # (judged by the operation modes the object offers - what the capability flags decide; the optional settings themselves are
+                #  only registered by a probe that was ANSWERED, whatever the reason of a refusal)
+                if err or got.get("modes") != base.get("modes"):
+                    diff = sorted(set(base.get("modes", [])) ^ set(got.get("modes", [])))
+                    part.violate(f"C08/{tr}/reason-other-than-illegal-address-taken-for-unsupported",
+                                 f"ET.read_device_info(): probe of {reg} answered with exception {code} ({rc.reason(code)}): {err or ''} the object now differs from one whose "
+                                 f"probe was answered normally in {diff}" + (" - exactly as if the answer had been ILLEGAL DATA ADDRESS" if got.get("modes") == lacking.get("modes") else ""),
+                                 {"probe": True})
+                else:
+                    part.count("capability_probe_other_reasons")
+        part.see(f"probe|{port}")
+
+
 def compound_calls_part(part):
     """public calls that consist of several requests (operation-mode setters, export limit, depth of discharge, one-byte settings): each
     WRITE of the sequence in turn is answered with an exception frame; the call must end with RequestRejectedException(reason) and the
@@ -395,6 +441,7 @@ def run_shard(spec):
         family_level_part(part)
     if spec["transport"] == "udp" and spec["kind"] == "write" and spec["ka"]:
         compound_calls_part(part)
+        capability_probe_part(part)
     for T in spec["Ts"]:
         for code in range(256):
             for j in range(R + 1):
@@ -435,6 +482,9 @@ def replay(case):
     part = Part()
     if case.get("family_level"):
         family_level_part(part)
+        return [{"key": v["key"], "msg": v["msg"]} for v in part.violations]
+    if case.get("probe"):
+        capability_probe_part(part)
         return [{"key": v["key"], "msg": v["msg"]} for v in part.violations]
     if case.get("compound"):
         compound_calls_part(part)
